@@ -5,8 +5,9 @@
  R3 both continuation markers come from the same response, the path is passed on, and the request forwards the markers;
  R4 window filters `>= start`, `<= end`, each skipped when unset, applied to the combined list;
  R5 empty listing -> None, propagated by get_versioned_results and turned into "no handler" by the client;
- R6 every sample-th listed version is requested; each frame is stamped with the LastModified of the version it was
-    downloaded for, converted to the handler's timezone; request/return tuples keep version, buffer and future together;
+ R6 every sample-th listed version is requested; each frame is stamped, inside the loop that receives it together with its
+    version, with that version's LastModified converted to the handler's timezone; request/return tuples keep version, buffer
+    and future together;
  R7 future.result() sits in try/except Exception without re-raise and task_done runs on both paths.
 Not decided: behaviour of the real service (newest-first ordering is an assumption of the property itself).
 """
